@@ -617,15 +617,27 @@ func Run(sc Script) *Trace {
 }
 
 var goroutineHdr = regexp.MustCompile(`^goroutine \d+ `)
+var bubbleTag = regexp.MustCompile(`synctest bubble \d+`)
 
 // Census returns one line per live goroutine that has a frame of the code
 // under test on its stack (harness frames excluded).
 func Census() []string {
+	// only goroutines of the caller's own bubble count (goroutines leaked by an
+	// earlier case stay blocked in their own, dead bubble)
+	self := make([]byte, 256)
+	self = self[:runtime.Stack(self, false)]
+	bubble := ""
+	if m := bubbleTag.FindString(string(self)); m != "" {
+		bubble = m
+	}
 	buf := make([]byte, 1<<20)
 	n := runtime.Stack(buf, true)
 	var out []string
 	for _, g := range strings.Split(string(buf[:n]), "\n\n") {
 		if !strings.Contains(g, "github.com/energomonitor/bisquitt/") {
+			continue
+		}
+		if hdr := strings.SplitN(g, "\n", 2)[0]; bubbleTag.FindString(hdr) != bubble {
 			continue
 		}
 		lines := strings.Split(g, "\n")
